@@ -665,6 +665,22 @@ func (e *Env) evalBinary(n *Binary) *Value {
 		e.g.pow2Axioms()
 		return mathVal("(div " + x + " (pow2 " + y + "))")
 	case "&", "|", "^":
+		if n.Op == "&" {
+			// exact for a constant single-bit mask (x & 2^k) and for a constant low mask (x & (2^k - 1))
+			for _, pr := range [][2]string{{x, y}, {y, x}} {
+				if isLiteral(pr[1]) {
+					var m int64
+					if _, err := fmt.Sscan(pr[1], &m); err == nil && m > 0 {
+						if m&(m-1) == 0 {
+							return mathVal(fmt.Sprintf("(* (mod (div %s %d) 2) %d)", pr[0], m, m))
+						}
+						if m&(m+1) == 0 {
+							return mathVal(fmt.Sprintf("(mod %s %d)", pr[0], m+1))
+						}
+					}
+				}
+			}
+		}
 		name := map[string]string{"&": "bitand", "|": "bitor", "^": "bitxor"}[n.Op]
 		e.g.decl(fmt.Sprintf("(declare-fun %s (Int Int) Int)", name))
 		return mathVal("(" + name + " " + x + " " + y + ")")
